@@ -57,6 +57,13 @@ func (st *ConcState) Step(v ssa.Value) ssa.Value { return st.alias[v] }
 
 // bind makes dst stand for src (evaluated in st) in the state ns.
 func bind(ns, st *ConcState, dst, src ssa.Value) {
+	// a loop-carried variable that the iteration left unchanged: its new value is what it stood for already
+	for v, k := src, 0; v != nil && k < 16; k++ {
+		if v == dst {
+			return
+		}
+		v = st.alias[v]
+	}
 	delete(ns.ints, dst)
 	delete(ns.nils, dst)
 	delete(ns.syms, dst)
